@@ -870,7 +870,12 @@ fn parse_struct_literal(
 
         field_m.complete(p, NodeKind::MemberLiteral);
 
-        if p.at_eof() || p.at_default_recovery_set() {
+        // inherited recovery tokens (other than our own separator) are left for the caller;
+        // without this check the loop would spin on them because nothing below consumes them
+        if p.at_eof()
+            || p.at_default_recovery_set()
+            || (p.at_set(recovery_set) && !p.at(TokenKind::Comma))
+        {
             break;
         }
 
@@ -989,7 +994,12 @@ fn parse_array_literal(
             item.precede(p).complete(p, NodeKind::ArrayItem);
         }
 
-        if p.at_eof() || p.at_default_recovery_set() {
+        // inherited recovery tokens (other than our own separator) are left for the caller;
+        // without this check the loop would spin on them because nothing below consumes them
+        if p.at_eof()
+            || p.at_default_recovery_set()
+            || (p.at_set(recovery_set) && !p.at(TokenKind::Comma))
+        {
             break;
         }
 
@@ -1185,7 +1195,12 @@ fn parse_switch(p: &mut Parser, recovery_set: TokenSet) -> CompletedMarker {
 
             arm_m.complete(p, NodeKind::SwitchArm);
 
-            if p.at_eof() || p.at_default_recovery_set() {
+            // inherited recovery tokens (other than our own separator) are left for the caller;
+            // without this check the loop would spin on them because nothing below consumes them
+            if p.at_eof()
+                || p.at_default_recovery_set()
+                || (p.at_set(recovery_set) && !p.at(TokenKind::Comma))
+            {
                 break;
             }
 
